@@ -286,3 +286,26 @@ def run(ctx):
                 if not (np.all(np.isfinite(g_w)) and direct.close(g_w, w_w, scale=abs(float(w_w[0])) + nw * pw)):
                     ctx.violation(f"{name_w} on {nw} x {pw} data of scale {scale_w:g}: {c_w} -> {np.asarray(g_w).tolist()}, the definition (log-determinant via slogdet) gives {w_w.tolist()}",
                                   {"n": nw, "p": pw, "scale": scale_w, "cut": c_w, "data_seed": ctx.seed + 4545}, {"what": "wide-p-value", "scorer": name_w.split("(")[0]})
+    # ---- several objects of one cost class alive at once, fitted on DIFFERENT data and evaluated alternately: each row depends on its own object's data only ----
+    from skchange.costs import GaussianCovCost as _GC2, GaussianVarCost as _GV2, L2Cost as _L22
+    rng_i = np.random.default_rng(ctx.seed + 111)
+    for it in range(ctx.n(6, 40)):
+        p_i = int(rng_i.integers(1, 4))
+        n_i = int(rng_i.integers(12, 30))
+        for cname, mk_i, kind_i, ms_i in [("L2Cost", _L22, "l2", 1), ("GaussianVarCost", _GV2, "gvar", 2), ("GaussianCovCost", _GC2, "gcov", p_i + 1)]:
+            XA, XB = rng_i.normal(size=(n_i, p_i)), rng_i.normal(size=(n_i, p_i)) * 3.0 + 5.0
+            a_, b_ = mk_i().fit(XA), mk_i().fit(XB)
+            for _ in range(4):
+                s_i = int(rng_i.integers(0, n_i - ms_i - 1))
+                e_i = int(rng_i.integers(s_i + ms_i + 1, n_i + 1))
+                cut_i = np.asarray([[s_i, e_i]])
+                ga, gb, ga2 = a_.evaluate(cut_i)[0], b_.evaluate(cut_i)[0], a_.evaluate(cut_i)[0]
+                ctx.case({"interleaved": cname, "it": it, "cut": [s_i, e_i]}, nontrivial=True)
+                for tag, X_, g_ in (("first object", XA, ga), ("second object", XB, gb), ("first object again", XA, ga2)):
+                    w_ = np.asarray(direct.cost_direct(kind_i, None, X_, s_i, e_i), dtype=float)
+                    if not direct.close(g_, w_, scale=float(np.sum(np.asarray(X_)[s_i:e_i] ** 2)) + (e_i - s_i) * p_i + 1.0):
+                        ctx.violation(f"{cname}: two objects fitted on different data and evaluated alternately on {[s_i, e_i]}: the {tag} returns {np.asarray(g_).tolist()}, "
+                                      f"its own data give {w_.tolist()}", {"cost": cname, "cut": [s_i, e_i], "XA": XA.tolist(), "XB": XB.tolist(), "which": tag},
+                                      {"what": "row-depends-on-another-object", "cost": cname})
+                        break
+
